@@ -703,7 +703,7 @@ func evalBooks(l *lab.SocketLab, bc batchCfg, t tally, parkedPer map[int]int, de
 }
 
 func TestC13Accounting(t *testing.T) {
-	sub := lab.Sub("accounting-batches", "rapid: lab (5 strategies x a deployment of 1-999 names - 1-3 most often, tens, hundreds, and 850-999: just below the documented 1000-name cap of the per-backend metrics - in 6 naming styles, on 1-6 raw TCP backends: beyond 3 names several names share the address of a raw backend and per-backend numbers are compared per address, summed over its names; optional unreachable backend, limiter/breaker/passive checks on or off) and a batch of 5-40 requests over kinds "+
+	sub := lab.Sub("accounting-batches", "rapid: lab (5 strategies x a deployment of 1-999 names - 1-3 most often, tens, hundreds, and 850-999: just below the documented 1000-name cap of the per-backend metrics - in 12 naming styles (round 9: names of 96 and 260 bytes that share all but their tail, names differing only in the middle, only in letter case or the last byte, names beyond ASCII, names of one or two bytes), on 1-6 raw TCP backends: beyond 3 names several names share the address of a raw backend and per-backend numbers are compared per address, summed over its names; optional unreachable backend, limiter/breaker/passive checks on or off) and a batch of 5-40 requests over kinds "+
 		"{2xx, 4xx, 5xx, backend reset mid-body, short body, client abort mid-upload, client abort mid-download, rate-limited client, WebSocket handshake answered 101 whose tunnel is used and then ended by the backend, request parked in flight in a drawn phase (backend silent before its response head / head sent and no body byte / head and parts 1..k of n sent and read by the client / head and 256 KiB-1 MiB sent to a client that stopped reading after the head; cl, chunked or close-delimited)}, issued sequentially or by 2-64 concurrent clients over real sockets; "+
 		"books checked at quiescence while requests are parked (gauges = in flight) and again after release (gauges = 0): A1 total, A2 exactly-one-of successful/failed/rate-limited, A3 per-backend totals = the backends' own tallies and their sum = dispatched, A4 gauges in /metrics and /v1/backends; "+
 		"in a third of the labs health_checks.active is on (interval 2-30 s, timeout 1-2 s, 4 health paths, unhealthy_timeout 0/1/3600 s when passive checks are off) and Helios's own prober probes the raw backends, whose health paths answer as drawn per backend {200, 204, 404, 500, 503, connection reset; the unreachable backend refuses}: probes are no requests - the books are read once on the idle balancer after the start-up probe round (all zero) and then as in every lab, against the backends' tallies of requests (probes told apart by the backends); "+
